@@ -15,7 +15,9 @@ use zkabacus_crypto as za;
 
 pub struct C02;
 
-pub const VARIANTS: [&str; 38] = [
+pub const VARIANTS: [&str; 40] = [
+    "adaptive-digit-response-customer",
+    "adaptive-digit-response-merchant",
     "extra-digit-proofs",
     "fabricated-digit-signature",
     "compensating-shift-customer",
@@ -740,6 +742,55 @@ pub fn run_case(o: &mut Outcome, case: &Value) {
                     accepted_false.push((format!("adaptive/{}.scalar_commitment", "customer_balance_proof.digit_proofs[].commitment_proof"), p.rounds, format!("closing signature valid on a close state with a negative customer balance: {}", ok)));
                 }
             }
+            "adaptive-digit-response-customer" | "adaptive-digit-response-merchant" => {
+                // overspend (or over-refund): the new balance of one side is q - k. Its range
+                // constraint is built for 0, every digit proof is valid except ONE, whose response is
+                // set after the challenge so that the digits still add up to the balance's response:
+                // accepted only by a verifier that skips that digit proof (a dropped remainder, an
+                // off-by-one bound, a short zip)
+                let on_cust = variant == "adaptive-digit-response-customer";
+                let j = (case["digit"].as_u64().unwrap_or(0) as usize) % ndig;
+                let base = if on_cust { rc.cust } else { rc.merch } as i128;
+                let over = base + 1 + s.below(1000) as i128;
+                let k = (over - base) as u64;
+                let neg = q_minus(k);
+                let mut hh = h.clone();
+                let other = ((if on_cust { rc.merch } else { rc.cust }) as i128 + over) as u64;
+                if on_cust {
+                    hh.new_st[3] = neg;
+                    hh.new_st[4] = Scalar::from(other);
+                    hh.cust_range_value = 0;
+                    hh.merch_range_value = (other & (i64::MAX as u64)) as u128;
+                } else {
+                    hh.new_st[4] = neg;
+                    hh.new_st[3] = Scalar::from(other);
+                    hh.merch_range_value = 0;
+                    hh.cust_range_value = (other & (i64::MAX as u64)) as u128;
+                }
+                hh.new_cl[3] = hh.new_st[3];
+                hh.new_cl[4] = hh.new_st[4];
+                let dt = pay_draft(m, &hh, &rc.token, &PayKnobs::default(), &mut s);
+                let draft = assemble_pay(&template, &dt, None, &PayOverrides::default());
+                let dj: &Raw2 = if on_cust { &dt.cust_range.digits[j].raw } else { &dt.merch_range.digits[j].raw };
+                let pfx = format!("{}.digit_proofs[{}].commitment_proof", if on_cust { "customer_balance_proof" } else { "merchant_balance_proof" }, j);
+                let mut w = Scalar::one();
+                for _ in 0..j {
+                    w *= Scalar::from(128u64);
+                }
+                let winv: Scalar = Option::<Scalar>::from(w.invert()).unwrap_or_else(|| crate::harness_error("C02: digit weight not invertible"));
+                let mut build = |c: &Scalar| {
+                    let zj = c * dj.m[0] + dj.s[0] + c * neg * winv;
+                    let mut ov = PayOverrides::default();
+                    ov.sc.push((format!("{}.message_response_scalars[0]", pfx), zj));
+                    assemble_pay(&template, &dt, Some(c), &ov)
+                };
+                let amt = if on_cust { over as i64 } else { -(over as i64) };
+                let p = attack_pay(m, amt, &refc::scb(&shown), &ctx, &draft, &mut build, seed, o);
+                if let Some((_u, cs)) = p.accepted {
+                    let ok = unblinds_to_signature_on(m, &cs, &dt.cl.bf, &hh.new_cl);
+                    accepted_false.push((format!("adaptive/{}.digit_proofs[{}].response", if on_cust { "customer_balance_proof" } else { "merchant_balance_proof" }, j), p.rounds, format!("closing signature valid on a close state with a negative {} balance: {}", if on_cust { "customer" } else { "merchant" }, ok)));
+                }
+            }
             _ => crate::harness_error("C02: unknown adaptive variant"),
         }
     }
@@ -781,9 +832,20 @@ impl Prop for C02 {
                     1 => -((1 + sch.below(merch.max(1).min(1000))) as i64),
                     _ => (1 + sch.below(cust.min(1000))) as i64,
                 };
-                v.push(json!({"seed": mix(&[seed, 0xC02, rep as u64, crate::hash_str(name)]), "variant": name, "cust": cust, "merch": merch,
-                              "amount": amount, "history": if rep == 0 { 0 } else { sch.usize(2) }, "control_amount": sch.below(4),
-                              "mspec": if rep % 3 == 2 { "9002" } else { "9001" }}));
+                // the one-unverified-digit forgeries: every digit position in the first repetition,
+                // a drawn one afterwards
+                let digits: Vec<u64> = if !name.starts_with("adaptive-digit-response") {
+                    vec![0]
+                } else if rep == 0 {
+                    (0..9).collect()
+                } else {
+                    vec![sch.below(9)]
+                };
+                for dg in digits {
+                    v.push(json!({"seed": mix(&[seed, 0xC02, rep as u64, crate::hash_str(name), dg]), "variant": name, "cust": cust, "merch": merch,
+                                  "amount": amount, "history": if rep == 0 { 0 } else { sch.usize(2) }, "control_amount": sch.below(4), "digit": dg,
+                                  "mspec": if rep % 3 == 2 { "9002" } else { "9001" }}));
+                }
             }
         }
         CaseSet { enumerated: v, random: 0, exhaustive: false }
@@ -816,7 +878,7 @@ impl Prop for C02 {
         v
     }
     fn rule(&self) -> String {
-        "one case = one Byzantine customer session against the real merchant: raw establishment (so the actor knows every scalar), 0-2 honest raw payments to vary the history, one more honest raw payment as accept-the-truth control (closing signature must be on old-balance -/+ amount, a foreign revocation pair must be refused and the right one must complete it), then one variant of the false pay statement: wrong nonce, wrong amount on either balance, negative / above-range balance, foreign channel id, close tag replaced, old-lock commitment to another lock (linked and unlinked), new lock mismatch, token of another key / tampered / on a different state, digit signature for another digit, digits permuted, all-maximal digits, a digit signature fabricated from two published ones that share a base point (when the parameters allow it), 37 digit proofs instead of 9 (when the wire format has a length prefix there), close balance mismatch, sign-flipped amount; or post-challenge choice (probe -> hook -> adapt -> resubmit, up to three rounds) of the revealed nonce scalar (twice on one token: double spend), the close-tag scalar, T of the state / close / lock proof, C of the state / close proof, T of a digit proof (overspend). Distinct = distinct (variant, balances, amount, history, seed); non-trivial = an attack was run".into()
+        "one case = one Byzantine customer session against the real merchant: raw establishment (so the actor knows every scalar), 0-2 honest raw payments to vary the history, one more honest raw payment as accept-the-truth control (closing signature must be on old-balance -/+ amount, a foreign revocation pair must be refused and the right one must complete it), then one variant of the false pay statement: wrong nonce, wrong amount on either balance, negative / above-range balance, foreign channel id, close tag replaced, old-lock commitment to another lock (linked and unlinked), new lock mismatch, token of another key / tampered / on a different state, digit signature for another digit, digits permuted, all-maximal digits, a digit signature fabricated from two published ones that share a base point (when the parameters allow it), 37 digit proofs instead of 9 (when the wire format has a length prefix there), close balance mismatch, sign-flipped amount; or post-challenge choice (probe -> hook -> adapt -> resubmit, up to three rounds) of the revealed nonce scalar (twice on one token: double spend), the close-tag scalar, T of the state / close / lock proof, C of the state / close proof, T of a digit proof (overspend), the response of ONE digit proof at each digit position of either balance (a negative balance whose other digit proofs are all valid). Distinct = distinct (variant, balances, amount, history, seed); non-trivial = an attack was run".into()
     }
     fn assumptions(&self) -> Vec<String> {
         vec![
